@@ -1387,6 +1387,8 @@ def walk(
         stack = asts[:] if back else asts[::-1]
 
     else:
+        no_recurse_both = False
+
         if self_ and on != 'leave':  # leave does its own setup
             if check_all_param(self):
                 item = self if on == 'enter' else (self, False)
@@ -1396,7 +1398,10 @@ def walk(
                     recurse_ = sent
 
                 if not recurse_:
-                    return
+                    if on != 'both':
+                        return
+
+                    no_recurse_both = True  # walk root is not recursed into but is still left like any other node
 
                 if not (ast := self.a):  # if deleted this node then we are done
                     return
@@ -1409,6 +1414,8 @@ def walk(
 
         if scope:  # some parts of functions or classes or the various comprehensions are outside their scope
             scope_ctx, stack = _ScopeContext.create(self, all, back, check_all_param, ast)
+        elif no_recurse_both:
+            stack = []
         else:
             stack = None  # scope_ctx not created because not needed in this case
 
